@@ -149,8 +149,10 @@ def program_for(atom_t, pos):
         # of its own, used after the derived one - what is cached for a derived class must not leak into its base class)
         prog['classes'].append({'n': 'P0', 'fields': [['z', I], ['f', ft]]})
         prog['classes'].append({'n': 'P', 'base': 'P0', 'fields': [['y', ['p', 'Integer', {'min_occurs': 1}]]]})
-        prog['classes'].append({'n': 'B0', 'fields': [['k', I]]})
-        prog['classes'].append({'n': 'D0', 'base': 'B0', 'fields': [['y2', ['p', 'Integer', {'min_occurs': 1}]]]})
+        # (and that base class lives in a namespace of its own: an inherited member belongs to the namespace of the class
+        # that declares it)
+        prog['classes'].append({'n': 'B0', 'ns': 'urn:vf:base', 'fields': [['k', I]]})
+        prog['classes'].append({'n': 'D0', 'base': 'B0', 'ns': TNS, 'fields': [['y2', ['p', 'Integer', {'min_occurs': 1}]]]})
         m['args'] = [['a', ['c', 'P', {}]], ['d', ['c', 'D0', {}]], ['b0', ['c', 'B0', {}]]]
         m['ret'] = ['c', 'P', {}]
     elif pos == 'field2':
